@@ -544,8 +544,8 @@ BRIDGE = {
     "Rough.Props.GenClient": {
         "rs_modules": ['Client', 'Message', 'Merkle'],
         "namespace": "Rough.Props.GenCore",
-        "theorems": ['GEN_client_sound'],
-        "props": ['C01'],
+        "theorems": ['GEN_client_sound', 'GEN_client_request_wellformed', 'GEN_client_accepts'],
+        "props": ['C01', 'C03'],
     },
     "Rough.Props.GenStats": {
         "rs_modules": ['StatsCore', 'StatsPer'],
@@ -558,6 +558,13 @@ BRIDGE = {
         "namespace": "Rough.Props.GenCore",
         "theorems": ["GEN_cert_valid_aligned", "GEN_cert_valid", "GEN_send_responses_replies", "GEN_send_responses_verified", "GEN_send_responses_returns"],
         "props": ["C10", "C02", "C09"],
+    },
+    "Rough.Props.GenSecrets": {
+        "rs_modules": ["Responder", "Online", "LongTerm", "Message", "Merkle"],
+        "rs_functions": {"Responder": ["Responder::new", "struct Responder"], "Online": ["OnlineKey::new", "OnlineKey::make_dele", "struct OnlineKey"]},
+        "namespace": "Rough.Props.GenCore",
+        "theorems": ["GEN_responders_factor"],
+        "props": ["C20"],
     },
     "Rough.Props.GenConfig": {
         "rs_modules": ["EnvConfig", "FileConfig", "Config"],
@@ -624,9 +631,10 @@ _BRIDGE_WHAT = {
     "Rough.Props.GenKeys": "stated directly about the regenerated code (bridge composed with the model-level theorem): classic_midp / rfc_midp / make_srep as regenerated: MIDP = floor(clock / unit), RADI, ROOT, VER / VERS, signature over the context-prefixed SREP",
     "Rough.Props.GenSign": "stated directly about the regenerated code (bridge composed with the model-level theorem): MsgSigner / MsgVerifier as regenerated: k-th signature = one-shot signature of the k-th message, no carry-over, chunking-independent, verify = one-shot verify",
     "Rough.Props.GenEnvelope": "stated directly about the regenerated code (bridge composed with the model-level theorem): decrypt_seed as regenerated: never panics, round trip with the model's encrypt, a different blob or key yields the seed only through an AEAD opening",
-    "Rough.Props.GenClient": "stated directly about the regenerated code (bridge composed with the model-level theorem): the client's receive_response / ResponseHandler::new / extract_time as regenerated accept only responses that are authentic for this request under the pinned key",
+    "Rough.Props.GenClient": "stated directly about the regenerated code (bridge composed with the model-level theorem): the client's receive_response / ResponseHandler::new / extract_time as regenerated accept only responses that are authentic for this request under the pinned key (C01); the regenerated make_request builds a 1024 / 1036-byte request of class `must`, and the reference reply for any batch and position is accepted with the signed midpoint and radius, verified iff a key was supplied (C03)",
     "Rough.Props.GenStats": "stated directly about the regenerated code (bridge composed with the model-level theorem): PerClientStats as regenerated: every event counted once or overflowed, bounded number of tracked addresses",
     "Rough.Props.GenResponder": "stated directly about the regenerated code: LongTermKey::new + make_cert yield a certificate whose DELE carries the online key with window [0, 2^64-1] and whose signature verifies under the seed's key in the version's context (GEN_cert_valid); one batch of Responder::send_responses sends exactly the reference reply per queued request, to its source, in order, and the independent verifier accepts each (GEN_send_responses_replies / _verified); it returns normally for any drawable fault injection and any failing sends (GEN_send_responses_returns)",
+    "Rough.Props.GenSecrets": "stated about the constructors as regenerated: the two responders Server::new keeps are a function of the seed's public interface — two seeds with the same public key and certificate signatures yield identical responders (GEN_responders_factor)",
     "Rough.Props.GenConfig": "C16 stated about the regenerated loaders, ServerConfig getters and validator composed as main composes them: effective = written, out-of-range refused, missing required refused (GEN_start_file / GEN_start_env = the model start)",
     "Rough.Bridge.ResponderNew": "OnlineKey::new and Responder::new (online key from the drawn seed, certificate = make_cert of the SAME long-term key object for this version, empty queue and tree): the two responders created in Server::new's order are the model's Server.new responders",
     "Rough.Bridge.SendResponses": "responder.rs send_responses (the whole batch loop incl. failing sends, fault injection, lazily evaluated debug! arguments, statistics events)",
